@@ -61,11 +61,12 @@ BISECT_NAMES = ("bisect.bisect_left", "bisect_left", "bisect.bisect_right", "bis
 
 # ---------------------------------------------------------------- relational abstract evaluation
 # A sorted list and a probe are abstracted by three counts: cl entries below the probe, ce entries
-# equal to it, cg entries above it, each in {0, 1, 2, 3+}.  bisect_left = cl, bisect_right = cl + ce,
+# equal to it, cg entries above it, each in {0, 1, 2, 3, 4, 5+}.  bisect_left = cl, bisect_right = cl + ce,
 # len = cl + ce + cg.  Integer values are linear forms over (cl, ce, cg); comparisons are decided by
 # interval reasoning inside one abstract situation, list reads by locating the position in the three
 # segments.  Nothing is executed: the helper's body is interpreted over these forms.
-CLASSES = [(0, 0), (1, 1), (2, 2), (3, None)]      # (lo, hi); hi None = unbounded
+CLASSES = [(0, 0), (1, 1), (2, 2), (3, 3), (4, 4), (5, None)]      # (lo, hi); hi None = unbounded
+LOOP_CAP = 16
 
 
 class Lin:
@@ -180,6 +181,10 @@ def _segment(pos: Lin, sit) -> str:
     if _cmp(ast.Lt(), pos, R_, sit):
         return "eq"
     return "gt"
+
+
+class _Break(Exception):
+    pass
 
 
 class _NeedAtom(Exception):
@@ -305,6 +310,10 @@ def _rel_eval(f: Func, a: str, x: str, body: List[ast.stmt]):
                 env[s.targets[0].id] = value(s.value, env, sit, xt)
             elif isinstance(s, ast.AnnAssign) and isinstance(s.target, ast.Name) and s.value is not None:
                 env[s.target.id] = value(s.value, env, sit, xt)
+            elif isinstance(s, ast.AugAssign) and isinstance(s.target, ast.Name) and isinstance(s.op, ast.Mult) \
+                    and isinstance(s.value, ast.Constant) and isinstance(s.value.value, int) \
+                    and isinstance(env.get(s.target.id), Lin):
+                env[s.target.id] = env[s.target.id].scale(s.value.value)
             elif isinstance(s, ast.AugAssign) and isinstance(s.target, ast.Name) and isinstance(s.op, (ast.Add, ast.Sub)):
                 cur = env.get(s.target.id)
                 if not isinstance(cur, Lin):
@@ -313,6 +322,18 @@ def _rel_eval(f: Func, a: str, x: str, body: List[ast.stmt]):
                 env[s.target.id] = cur + d if isinstance(s.op, ast.Add) else cur - d
             elif isinstance(s, ast.Raise):
                 raise _Ret("raise")
+            elif isinstance(s, ast.While) and not s.orelse:
+                n_it = 0
+                while cond(s.test, env, sit, xt):
+                    n_it += 1
+                    if n_it > LOOP_CAP:
+                        raise _Undet()
+                    try:
+                        run(s.body, env, sit, xt)
+                    except _Break:
+                        break
+            elif isinstance(s, ast.Break):
+                raise _Break()
             else:
                 raise _Outside(f"statement outside the normal form: {norm(s)}")
 
@@ -338,7 +359,7 @@ def _rel_eval(f: Func, a: str, x: str, body: List[ast.stmt]):
             except _IndexErr:
                 r = "IndexError"
             except _Undet:
-                raise _Outside("a comparison is not decided by the (below, equal, above) counts")
+                r = "undetermined"
             outs.append(r)
         results[sit] = outs
     return results
@@ -423,9 +444,13 @@ def bisect_recipes(ctx):
         except _Outside as ex:
             raise AnalysisError("C18.R1", f"{name}: {ex}")
         bad = []
+        undet = 0
         for sit, outs in results.items():
             want = _spec_value(name, sit)
             for r in outs:
+                if isinstance(r, str) and r == "undetermined":
+                    undet += 1
+                    continue
                 same = r is None and want is None
                 if isinstance(r, Lin) and isinstance(want, Lin):
                     try:
@@ -441,6 +466,9 @@ def bisect_recipes(ctx):
                     if msg not in bad:
                         bad.append(msg)
         n_states = len(results)
+        if undet and not bad:
+            raise AnalysisError("C18.R1", f"{name}: {undet} abstract situations are not decided by the (below, equal, above) "
+                                          f"counts (unbounded loop or comparison) and no decided situation deviates")
         yield Ob("C18.R1", ["C18", "C01"], key, not bad,
                  f"{name}: " + ("; ".join(bad[:3]) + (f" (+{len(bad) - 3} more situations; L=#below, E=#equal, G=#above)" if len(bad) > 3 else " (L=#below, E=#equal, G=#above)")
                                 if bad else f"conforms on all {n_states} abstract list/probe situations"),
